@@ -55,6 +55,7 @@ NAME_POOLS = [
     ['r#type', 'r#match', 'r#fn', 'r#loop'],                # raw identifiers
     ['state', 'other', 'f', 'source', 'builder'],           # names the templates use themselves
     ['_0', '_f', '__f', '_s_x', 'x_'],                      # underscore-heavy names
+    ['x', '_x', '__x', '_s_x', '_o_x'],                     # names a template could derive from a sibling field's name
 ]
 
 
@@ -79,7 +80,7 @@ class TypeRender:
         self.sites = []           # (site, class, n) visited by the last render
         self.used_overrides = set()
         # naming dimension: mostly plain names, sometimes raw / template-internal / underscore names
-        self.pool = None if canonical else NAME_POOLS[pick([0, 0, 0, 1, 2, 3], idx, 'names')]
+        self.pool = None if canonical else NAME_POOLS[pick([0, 0, 0, 1, 2, 3, 4], idx, 'names')]
         # bystander dimension (run-time corpora only): another trait is educed next to the studied ones and given
         # field attributes of its own, stacked before / after / inside the studied trait's attribute; and foreign
         # (non-educe) attributes are sprinkled around the educe ones.  Neither may change the studied impls.
